@@ -195,26 +195,192 @@ Proof.
     unfold semit, modify in H. inversion H; subst. exact H1.
 Qed.
 
+(* ---- the configuration is never written: what _declare_fault's caller reads after the call is what was there before *)
+Definition kc {A} (m : SM A) : Prop := forall s, s_cfg (fst (m s)) = s_cfg s.
+
+Lemma kc_bind : forall {A B} (m : SM A) (f : A -> SM B), kc m -> (forall a, kc (f a)) -> kc (bind m f).
+Proof.
+  intros A B m f Hm Hf s. unfold bind. specialize (Hm s).
+  destruct (m s) as [s1 [a|e]]; cbn [fst] in *; [rewrite Hf|]; exact Hm.
+Qed.
+Lemma kc_ret : forall {A} (a : A), kc (ret a). Proof. intros A a s. reflexivity. Qed.
+Lemma kc_raise : forall {A} e, kc (@raise src A e). Proof. intros A e s. reflexivity. Qed.
+Lemma kc_gets : forall {A} (f : src -> A), kc (gets f). Proof. intros A f s. reflexivity. Qed.
+Lemma kc_gq : forall {A} (f : sparams -> A), kc (gq f). Proof. intros A f s. reflexivity. Qed.
+Lemma kc_get : kc get. Proof. intros s. reflexivity. Qed.
+Lemma kc_setq : forall f, kc (setq f). Proof. intros f s. destruct s. reflexivity. Qed.
+Lemma kc_semit : forall e, kc (semit e). Proof. intros e s. destruct s. reflexivity. Qed.
+Lemma kc_sset_step : forall v, kc (sset_step v). Proof. intros v s. destruct s. reflexivity. Qed.
+Lemma kc_sadd_packet : forall p, kc (sadd_packet p). Proof. intros p s. destruct s. reflexivity. Qed.
+Lemma kc_sreset : forall c, kc (sreset_internal c). Proof. intros c s. destruct s. reflexivity. Qed.
+Lemma kc_when : forall b (m : SM unit), kc m -> kc (when b m).
+Proof. intros b m H. destruct b; [exact H | apply kc_ret]. Qed.
+Lemma kc_cc : forall size, kc (checksum_calculation size).
+Proof. intros size s. rewrite cc_same. reflexivity. Qed.
+
+Ltac kc_step :=
+  first [ apply kc_ret | apply kc_raise | apply kc_gets | apply kc_gq | apply kc_get | apply kc_setq | apply kc_semit
+        | apply kc_sset_step | apply kc_sadd_packet | apply kc_sreset | apply kc_cc
+        | apply kc_when | (apply kc_bind; [|intro]) ].
+Ltac kc_auto := repeat first [ kc_step | match goal with |- kc (match ?x with _ => _ end) => destruct x end ].
+
+Lemma kc_stid : kc stid_or_assert. Proof. unfold stid_or_assert. kc_auto. Qed.
+Lemma kc_srcfg : kc srcfg_or_assert. Proof. unfold srcfg_or_assert. kc_auto. Qed.
+Lemma kc_snow : kc snow. Proof. unfold snow. kc_auto. Qed.
+Lemma kc_smode_is : forall m, kc (smode_is m). Proof. intros m. unfold smode_is, stmode. kc_auto. Qed.
+Lemma kc_prepare_eof : forall ck, kc (prepare_eof_pdu ck).
+Proof. intros ck. unfold prepare_eof_pdu. kc_auto; try apply kc_stid; kc_auto. Qed.
+Lemma kc_notice_of_completion : kc notice_of_completion_s.
+Proof. unfold notice_of_completion_s. kc_auto; try apply kc_stid; kc_auto. Qed.
+Lemma kc_handle_eof_sent : forall b, kc (handle_eof_sent b).
+Proof.
+  intros b. unfold handle_eof_sent, start_positive_ack_procedure_s.
+  kc_auto; first [apply kc_smode_is | apply kc_srcfg | apply kc_snow | apply kc_notice_of_completion | idtac]; kc_auto.
+Qed.
+Lemma kc_notice_of_cancellation : forall cond, kc (notice_of_cancellation_s cond).
+Proof.
+  intros cond. unfold notice_of_cancellation_s.
+  kc_auto; first [apply kc_stid | apply kc_prepare_eof | apply kc_handle_eof_sent | idtac]; kc_auto.
+Qed.
+Lemma kc_declare_fault : forall cond, kc (declare_fault_s cond).
+Proof.
+  intros cond. unfold declare_fault_s.
+  kc_auto; first [apply kc_notice_of_cancellation | idtac]; kc_auto.
+Qed.
+
+(* the handler code that makes _declare_fault return "ignored" *)
+Lemma fault_ignored_iff : forall l cond,
+  fault_ignored l cond = true <-> get_fault_handler (l_faults l) cond = Some FH_IGNORE.
+Proof.
+  intros l cond. unfold fault_ignored. destruct (get_fault_handler (l_faults l) cond) as [h|].
+  - rewrite Z.eqb_eq. split; [intros ->; reflexivity | intros H; inversion H; reflexivity].
+  - split; discriminate.
+Qed.
+
+(* the call at an expiry with the counter at the limit, whatever the handler *)
+Lemma hwa_limit : forall s r t,
+  src_waiting_ack s r t -> timed_out (now_s s) t = true -> r_ack_limit r <= q_ack_counter (s_p s) + 1 ->
+  handle_waiting_for_ack None s =
+    (declare_fault_s C_POS_ACK_LIMIT ;;;
+     l <- gets s_cfg ;;
+     if fault_ignored l C_POS_ACK_LIMIT then
+       (setq (fun q => q <| q_ack_timer := Some (now_s s, snd t) |> <| q_ack_counter := q_ack_counter (s_p s) + 1 |>) ;;;
+        pr <- gq q_progress ;; ck <- checksum_calculation pr ;; prepare_eof_pdu ck)
+     else ret tt)%monad s.
+Proof.
+  intros s r t (Hst & Hstep & Hq & Hput & Hr & Ht) Hto Hlim. unfold now_s in *.
+  assert (r_ack_limit r <=? q_ack_counter (s_p s) + 1 = true) as Hle by (apply Z.leb_le; lia).
+  unfold handle_waiting_for_ack, handle_retransmission, handle_positive_ack_procedures_s,
+    srcfg_or_assert, snow, gq.
+  unfold gets at 1 2 3 4 5, bind at 1 2 3 4 5 6, ret at 1 2 3.
+  rewrite Ht. cbv beta iota. rewrite Hr. cbv beta iota. rewrite Hto. cbv beta iota delta [negb].
+  rewrite Hle. reflexivity.
+Qed.
+
 Lemma src_limit : forall s r t,
   src_waiting_ack s r t -> timed_out (now_s s) t = true -> r_ack_limit r <= q_ack_counter (s_p s) + 1 ->
+  get_fault_handler (l_faults (s_cfg s)) C_POS_ACK_LIMIT <> Some FH_IGNORE ->
   (exists s', declare_fault_s C_POS_ACK_LIMIT s = (s', Ok tt) /\
               (s_step s' = SS_WAITING_FOR_EOF_ACK \/ s_step s' = SS_IDLE) /\
               state_machine_s None s = (s', Ok tt)) \/
   (exists s' e, declare_fault_s C_POS_ACK_LIMIT s = (s', Err e) /\ state_machine_s None s = (s', Err e)).
 Proof.
-  intros s r t (Hst & Hstep & Hq & Hput & Hr & Ht) Hto Hlim. unfold now_s in Hto.
+  intros s r t Hw Hto Hlim Hni.
+  pose proof (hwa_limit s r t Hw Hto Hlim) as Hh.
+  destruct Hw as (Hst & Hstep & Hq & Hput & Hr & Ht).
+  assert (fault_ignored (s_cfg s) C_POS_ACK_LIMIT = false) as Hfi.
+  { destruct (fault_ignored (s_cfg s) C_POS_ACK_LIMIT) eqn:E; [|reflexivity].
+    apply fault_ignored_iff in E. contradiction. }
+  remember (state_machine_s None s) as res eqn:Hres.
+  rewrite sm_none, sm_waiting_eof_ack in Hres by assumption.
+  unfold bind at 1 in Hres. rewrite Hh in Hres. clear Hh.
+  pose proof (kc_declare_fault C_POS_ACK_LIMIT s) as Hc.
+  unfold bind at 1 in Hres.
+  destruct (declare_fault_s C_POS_ACK_LIMIT s) as [s' [[]|e]] eqn:Hdf; cbn [fst] in Hc.
+  - left. exists s'. apply declare_fault_s_step in Hdf; [|exact Hstep].
+    split; [reflexivity|]. split; [exact Hdf|].
+    unfold gets, bind at 1 in Hres. rewrite Hc, Hfi in Hres.
+    unfold ret at 1 in Hres. rewrite Hres. apply tail_s_idle. exact Hdf.
+  - right. exists s', e. split; [reflexivity | exact Hres].
+Qed.
+
+(* c04_src_limit without its handler hypothesis (the statement up to wave 6: "at the limit the call is the fault
+   declaration, whatever the handler") is false after the F34 repair: with the handler IGNORE the call goes on and
+   re-sends the EOF.  Metadata-only put, limit 1, first expiry. *)
+Module CounterExamples.
+  Definition cx_r : rcfg := mkRcfg 2 2 None 64 false false ACKED CK_NULL 1000 1 1 false false 1000 1.
+  Definition cx_cfg : lcfg := mkLcfg 1 2 false false false false [(C_POS_ACK_LIMIT, FH_IGNORE)] 1000 [cx_r].
+  Definition cx_s : src :=
+    mkSrc cx_cfg ST_BUSY SS_WAITING_FOR_EOF_ACK 0 []
+      (mkSP (Some (1, 0)) None (Some (0, 1000)) 0 (Some C_NO_ERROR) 0 0 (Some 0) false true None (Some cx_r) false empty_sconf)
+      None (Some (mkPut 2 2 None None None None)) 0 16 (mkEnv 1000 [] false []).
+  Example handler_needed :
+    src_waiting_ack cx_s cx_r (0, 1000) /\ timed_out (now_s cx_s) (0, 1000) = true /\
+    r_ack_limit cx_r <= q_ack_counter (s_p cx_s) + 1 /\
+    (exists s', declare_fault_s C_POS_ACK_LIMIT cx_s = (s', Ok tt) /\ s_queue s' = [] /\ q_ack_counter (s_p s') = 0) /\
+    (exists s'', state_machine_s None cx_s = (s'', Ok tt) /\ s_queue s'' <> [] /\ q_ack_counter (s_p s'') = 1).
+  Proof.
+    split; [repeat split; try reflexivity; discriminate|].
+    split; [reflexivity|]. split; [vm_compute; discriminate|].
+    split; eexists; (split; [vm_compute; reflexivity|]); split; try reflexivity. discriminate.
+  Qed.
+End CounterExamples.
+
+(* expiry N, handler IGNORE (F34 repair): exactly one IGNORE callback, then the procedure carries on as below the limit:
+   timer restarted at the current time, counter + 1, the EOF queued again with the contents of the original
+   (and, where configured, its EOF-Sent indication); the step is kept.
+   Before the repair the call returned right after the callback: the state differed from [s] by the log entry only,
+   the timer stayed expired and the counter stayed at the limit. *)
+Lemma src_ack_limit_ignored_continues : forall s r t ck cond a b,
+  src_waiting_ack s r t -> timed_out (now_s s) t = true -> r_ack_limit r <= q_ack_counter (s_p s) + 1 ->
+  get_fault_handler (l_faults (s_cfg s)) C_POS_ACK_LIMIT = Some FH_IGNORE ->
+  q_tid (s_p s) = Some (a, b) -> q_cond_eof (s_p s) = Some cond ->
+  (forall s0, s_put s0 = s_put s -> fs_s s0 = fs_s s -> q_rcfg (s_p s0) = q_rcfg (s_p s) ->
+              q_segment_len (s_p s0) = q_segment_len (s_p s) -> q_md_only (s_p s0) = q_md_only (s_p s) ->
+              checksum_calculation (q_progress (s_p s)) s0 = (s0, Ok ck)) ->
+  state_machine_s None s =
+    (s <| s_queue := [PEof (hdr_of (q_conf (s_p s)) TOWARDS_RECEIVER) cond ck (q_progress (s_p s)) None] |>
+       <| s_ready := s_ready s + 1 |>
+       <| s_p ::= (fun q => q <| q_ack_timer := Some (now_s s, snd t) |>
+                              <| q_ack_counter := q_ack_counter (s_p s) + 1 |>) |>
+       <| s_env ::= (fun en => en <| e_log :=
+            (if l_ind_eof_sent (s_cfg s) then [EvEofSent a b] else []) ++
+            EvFault FH_IGNORE a b C_POS_ACK_LIMIT (q_progress (s_p s)) :: log_s s |>) |>, Ok tt).
+Proof.
+  intros s r t ck cond a b (Hst & Hstep & Hq & Hput & Hr & Ht) Hto Hlim Hfh Htid Hce Hck. unfold now_s, log_s in *.
   assert (r_ack_limit r <=? q_ack_counter (s_p s) + 1 = true) as Hle by (apply Z.leb_le; lia).
   rewrite sm_none, sm_waiting_eof_ack by assumption.
-  unfold bind.
-  assert (handle_waiting_for_ack None s = declare_fault_s C_POS_ACK_LIMIT s) as ->.
-  { unfold handle_waiting_for_ack, handle_retransmission, handle_positive_ack_procedures_s,
-      srcfg_or_assert, snow, gq, gets, bind, ret.
-    rewrite Ht. cbv beta iota. rewrite Hr. cbv beta iota. rewrite Hto. cbv beta iota delta [negb].
-    rewrite Hle. reflexivity. }
-  destruct (declare_fault_s C_POS_ACK_LIMIT s) as [s' [[]|e]] eqn:Hdf.
-  - left. exists s'. apply declare_fault_s_step in Hdf; [|exact Hstep].
-    split; [reflexivity|]. split; [exact Hdf|]. apply tail_s_idle. exact Hdf.
-  - right. exists s', e. split; reflexivity.
+  dsrc s. unfold fs_s in Hck. cbn in *. subst st step q rc ackt ce tid.
+  unfold tail_s, handle_waiting_for_ack, handle_positive_ack_procedures_s. msimp.
+  rewrite Hto. msimp. rewrite Hle. msimp.
+  unfold declare_fault_s, fault_ignored. msimp. rewrite Hfh. msimp. rewrite ?Hfh. msimp.
+  rewrite Hck by reflexivity. msimp.
+  destruct (l_ind_eof_sent cfg) eqn:Hind; msimp; reflexivity.
+Qed.
+
+(* ... and it is not declared again: once the queued EOF is retrieved, a call at any time before the next expiry
+   (the restarted timer not timed out) delivers nothing and changes nothing.
+   This was false before the repair: the call at the limit left the timer expired and the counter at the limit, so
+   EVERY following state_machine() call, at whatever time, delivered another IGNORE callback for Positive ACK Limit
+   Reached (one log entry per call) and the EOF was never sent again. *)
+Lemma src_ack_limit_ignored_not_redeclared : forall s r t ck cond a b s1 ps n',
+  src_waiting_ack s r t -> timed_out (now_s s) t = true -> r_ack_limit r <= q_ack_counter (s_p s) + 1 ->
+  get_fault_handler (l_faults (s_cfg s)) C_POS_ACK_LIMIT = Some FH_IGNORE ->
+  q_tid (s_p s) = Some (a, b) -> q_cond_eof (s_p s) = Some cond ->
+  (forall s0, s_put s0 = s_put s -> fs_s s0 = fs_s s -> q_rcfg (s_p s0) = q_rcfg (s_p s) ->
+              q_segment_len (s_p s0) = q_segment_len (s_p s) -> q_md_only (s_p s0) = q_md_only (s_p s) ->
+              checksum_calculation (q_progress (s_p s)) s0 = (s0, Ok ck)) ->
+  pump s = (s1, Ok ps) ->                                  (* the call at the limit, its EOF retrieved *)
+  timed_out n' (now_s s, snd t) = false ->                 (* any time before the next expiry *)
+  let s2 := s1 <| s_env ::= (fun en => en <| e_now := n' |>) |> in
+  state_machine_s None s2 = (s2, Ok tt).
+Proof.
+  intros s r t ck cond a b s1 ps n' Hw Hto Hlim Hfh Htid Hce Hck Hp Hn s2.
+  pose proof (src_ack_limit_ignored_continues s r t ck cond a b Hw Hto Hlim Hfh Htid Hce Hck) as Hsm.
+  destruct Hw as (Hst & Hstep & Hq & Hput & Hr & Ht).
+  unfold pump, pump_with in Hp. rewrite Hsm in Hp. unfold drain_s in Hp. inversion Hp. subst s1 ps. clear Hp Hsm.
+  apply (src_wait s2 r (now_s s, snd t)); [|exact Hn].
+  subst s2. dsrc s. cbn in *. subst. repeat split; try reflexivity. exact Hput.
 Qed.
 
 Lemma src_ack_ends : forall s r t h c st,
